@@ -58,6 +58,8 @@ type Case struct {
 	Kind   string `json:"kind"`
 	Subs   []Sub  `json:"subs"`
 	Oracle bool   `json:"oracle"` // false: model comparison only
+	// true: too big for a Coq term, judged by the oracle only
+	NoModel bool `json:"nomodel,omitempty"`
 }
 
 func hid(u uint64) string { return fmt.Sprintf("%x", u) }
@@ -191,9 +193,30 @@ func (p *snapPool) terms(idPos map[string]int) []string {
 		for k, g := range w.Sg {
 			sg[k] = fmt.Sprint(idPos[g])
 		}
+		pos := make([]int, len(w.Sg))
+		for k, g := range w.Sg {
+			pos[k] = idPos[g]
+		}
+		if from, ok := contiguous(pos); ok {
+			out[i] = vh.App("PSR", strings.TrimSuffix(coqN(w.H), "%N"), fmt.Sprint(w.Ts), fmt.Sprint(from), fmt.Sprint(len(pos)))
+			continue
+		}
 		out[i] = vh.App("PS", strings.TrimSuffix(coqN(w.H), "%N"), fmt.Sprint(w.Ts), natList(sg))
 	}
 	return out
+}
+
+// a list of at least 8 positions from, from+1, ... is printed as a range
+func contiguous(pos []int) (int, bool) {
+	if len(pos) < 8 {
+		return 0, false
+	}
+	for k := range pos {
+		if pos[k] != pos[0]+k {
+			return 0, false
+		}
+	}
+	return pos[0], true
 }
 
 // lists of plain numerals under one scope delimiter
@@ -335,11 +358,16 @@ func run(c *vh.Ctx, cs Case) {
 		}
 
 		// Coq term of the call (node and snapshots by position)
-		ix := make([]string, len(sb.Snaps))
+		ix, ixn := make([]string, len(sb.Snaps)), make([]int, len(sb.Snaps))
 		for j, w := range sb.Snaps {
-			ix[j] = vh.Nat(pool.index(w))
+			ixn[j] = pool.index(w)
+			ix[j] = vh.Nat(ixn[j])
 		}
-		rsubs = append(rsubs, vh.App("RSub", fmt.Sprint(idPos[sb.Node]), fmt.Sprint(sb.Round), vh.Bool(sb.Credit), vh.Bool(pan), natList(ix)))
+		if from, ok := contiguous(ixn); ok {
+			rsubs = append(rsubs, vh.App("RRange", fmt.Sprint(idPos[sb.Node]), fmt.Sprint(sb.Round), vh.Bool(sb.Credit), vh.Bool(pan), fmt.Sprint(from), fmt.Sprint(len(ixn))))
+		} else {
+			rsubs = append(rsubs, vh.App("RSub", fmt.Sprint(idPos[sb.Node]), fmt.Sprint(sb.Round), vh.Bool(sb.Credit), vh.Bool(pan), natList(ix)))
+		}
 
 		// oracle
 		if pan && (!sameTable(prevT, curT) || !sameOffs(prevO, curO)) {
@@ -428,6 +456,9 @@ func run(c *vh.Ctx, cs Case) {
 	}
 	term := vh.App("CWork", vh.List(nodes, "N"), vh.List(pool.terms(idPos), "psnap"), vh.List(rsubs, "rsub"),
 		zList(dayl), vh.List(table, "(list Z)"), zList(offs))
+	if cs.NoModel {
+		term = ""
+	}
 	c.Case(cs.Kind, canonKey(cs), credited, cs, term)
 }
 
@@ -757,6 +788,66 @@ func (g *gen) invalid(shape string, n, p int, pg *prog, d0 uint64) (Sub, bool, b
 	panic("shape " + shape)
 }
 
+// One proposer, one round holding K credited snapshots (a round has no count
+// limit in the callers: it is bounded in time only, see the note in main),
+// submitted, re-submitted identically, grown by 1..5, re-submitted, then the
+// next round on the next day (also hundreds of snapshots), re-submitted, and a
+// replay of the finished round.  manySigners: 50..60 node ids, every snapshot
+// signed by 30..50 of them.
+func (g *gen) bigRound(K int, manySigners bool) Case {
+	n, p := g.r.Range(3, 5), 0
+	if manySigners {
+		n = g.r.Range(50, 60)
+	}
+	p = g.r.Intn(n)
+	sg := func() []string {
+		if !manySigners {
+			return g.signers(n, p)
+		}
+		l := g.r.Range(30, 50)
+		lo := p - l + 1
+		if lo < 0 {
+			lo = 0
+		}
+		hi := p
+		if hi > n-l {
+			hi = n - l
+		}
+		a := g.r.Range(lo, hi) // a <= p < a+l <= n
+		out := make([]string, l)
+		for k := range out {
+			out[k] = g.node(a + k)
+		}
+		return out
+	}
+	d := uint64(g.r.Range(1, 20000))
+	mk := func(cnt int, d uint64, edge uint64) []Snap {
+		l := make([]Snap, cnt)
+		for i := range l {
+			l[i] = Snap{H: g.hash(), Ts: g.tsOn(d), Sg: sg()}
+		}
+		l[g.r.Intn(cnt)].Ts = edge
+		return l
+	}
+	round := uint64(g.r.Intn(2))
+	node := g.node(p)
+	S := mk(K, d, (d+1)*day-1) // one in the last nanosecond of the day
+	G := mk(g.r.Range(1, 5), d, d*day+boolU(d == 0))
+	K2 := K
+	if K > 300 {
+		K2 = g.r.Range(260, 320)
+	}
+	T := mk(K2, d+1, (d+1)*day) // next round starts at midnight
+	SG := append(append([]Snap(nil), S...), G...)
+	v := func(r uint64, sn []Snap, class string) Sub {
+		return Sub{Node: node, Round: r, Snaps: sn, Credit: true, Class: class}
+	}
+	return Case{Kind: "biground", Oracle: true, Subs: []Sub{
+		v(round, S, "valid"), v(round, S, "valid"), v(round, SG, "valid"), v(round, SG, "valid"),
+		v(round+1, T, "valid"), v(round+1, T, "valid"), v(round, SG, "stale"), v(round+1, T, "valid"),
+	}}
+}
+
 // chaotic stream: random rounds, random subsets of a small pool; the model judges
 func (g *gen) chaos() Case {
 	n := g.r.Range(2, 4)
@@ -857,7 +948,9 @@ func main() {
 		"2..6 consecutive rounds each (days advance between rounds, timestamps cluster at midnight), 1..12 snapshots per round with random " +
 		"signer subsets containing the proposer, each round submitted 1..4 times as shuffled monotone prefixes with repeats, proposers " +
 		"interleaved, older rounds replayed; inv-* kinds inject refused shapes (gap, missing, mixedday, zerots, zerohash, noleader), " +
-		"anom-* kinds accepted anomalies (model only), chaos random rounds/subsets. non-trivial = some call changed a counter; " +
+		"anom-* kinds accepted anomalies (model only), chaos random rounds/subsets; biground: one proposer, a round of K snapshots " +
+		"(quick 255,256,257,300 and ~300 with 30..50 signers each; thorough also 390,512,1000 and random 200..600), re-submitted, grown, " +
+		"next round on the next day, replayed. non-trivial = some call changed a counter; " +
 		"distinct = history up to renaming of ids"
 	if c.Replay != "" {
 		var cs Case
@@ -873,12 +966,27 @@ func main() {
 		cs = rebase(cs, next())
 		run(c, cs)
 	}
+	// rounds with hundreds of snapshots: 255/256/257 around a power of two, 300,
+	// and in the thorough tier up to 1000
+	bigK := []int{255, 256, 257, 300}
+	if c.Tier == "thorough" {
+		bigK = append(bigK, 390, 512, 1000)
+	}
+	br := c.Rng.Fork("biground")
+	for _, K := range bigK {
+		run(c, (&gen{r: br, base: next()}).bigRound(K, false))
+	}
+	run(c, (&gen{r: br, base: next()}).bigRound(290+br.Intn(20), true))
 	n := c.Scale(300, 10000)
 	refused := []string{"gap", "missing", "mixedday", "zerots", "zerohash", "noleader"}
 	accepted := []string{"duphash", "emptysigners", "compensate", "dupsigner", "creditflip", "nocredit-garbage"}
 	for i := 0; i < n; i++ {
 		g := &gen{r: c.Rng, base: next()}
 		var cs Case
+		if c.Tier == "thorough" && c.Rng.Chance(1, 400) {
+			run(c, g.bigRound(c.Rng.Range(200, 600), c.Rng.Chance(1, 4)))
+			g = &gen{r: c.Rng, base: next()}
+		}
 		switch k := c.Rng.Intn(20); {
 		case k < 11:
 			cs = g.validCase("valid", "")
